@@ -384,7 +384,12 @@ func (store *HStore) Set(ki *KeyInfo, p *Payload) error {
 }
 
 func (store *HStore) GetRecordByKeyHash(ki *KeyInfo) (*Record, bool, error) {
-	ki.Prepare()
+	if err := ki.Prepare(); err != nil {
+		return nil, false, err
+	}
+	if ki.BucketID < 0 || len(ki.KeyPath) != 16 {
+		return nil, false, fmt.Errorf("bad key hash path %s", ki.StringKey)
+	}
 	bkt := store.buckets[ki.BucketID]
 	if bkt.State != BUCKET_STAT_READY {
 		return nil, false, nil
